@@ -127,3 +127,9 @@ Proof.
   intros G. explode_matrix A G.
   eexists. split; [sym_eval; reflexivity|]. finish_det.
 Qed.
+
+Theorem det_berkowitz_5 A : good A 5 5 -> exists d, det_berkowitz A = Ok (Fin d) /\ d = det 5 (fm_of A).
+Proof.
+  intros G. explode_matrix A G.
+  eexists. split; [sym_eval; reflexivity|]. finish_det.
+Qed.
